@@ -650,19 +650,876 @@ theorem G_serialSendFrame (t : Nat) (data : Bytes) : G c (serialSendFrame t data
 
 end serial
 
+/-! ### the HID link -/
+
+theorem G_dite {c : Cfg} {α} {p : Prop} [Decidable p] {A B : H α} {Q : Except HErr α → Host → Prop}
+    (hA : p → G c A Q) (hB : ¬ p → G c B Q) : G c (if p then A else B) Q := by
+  split
+  · exact hA ‹_›
+  · exact hB ‹_›
+
+theorem G_toQT {c : Cfg} {α} {m : H α} {S : α → Host → Prop} (hm : G c m (QD c S)) : G c m (QT c) :=
+  G_mono hm (fun _ _ hq => QD_mono (fun _ _ _ _ => trivial) hq)
+
+theorem G_ofQE {c : Cfg} {α} {m : H α} (S : α → Host → Prop) (hm : G c m (QE c)) : G c m (QD c S) :=
+  G_mono hm (fun _ _ hq => QD_mono (fun _ _ _ hF => hF.elim) hq)
+
+section hid
+variable {c : Cfg} (htr : c.tr = .hid)
+include htr
+
+theorem G_hidRead : G c hidRead (QE c) := by
+  unfold hidRead
+  exact G_bindE (G_hidDevRead htr) (fun raw => LS_lift _ _) (QD_err _)
+
+omit htr in
+theorem G_hidWriteReport (rid : Nat) (data : Bytes) : G c (hidWriteReport rid data) (QT c) := by
+  unfold hidWriteReport
+  exact G_ite (G_fail _ (QD_err _)) (G_devWrite _)
+
+theorem G_hidWriteData (a : Bool) (data : Bytes) : G c (hidWriteData a data) (QT c) := by
+  unfold hidWriteData
+  refine G_ite (G_fail _ (QD_err _)) ?_
+  cases a with
+  | false => exact G_devWrite _
+  | true =>
+    simp only [if_true]
+    have h1 : G c (catch_ (do let r ← hidDevRead; pure (some r)) (fun e => if e = .timeout then pure none else fail e))
+        (QD c (fun got _ => got = none)) := by
+      refine G_catch (S := fun _ _ => False) (G_bindE (G_hidDevRead htr) (fun r => LS_pure _ _) (QD_err _)) (fun e => ?_)
+        (fun _ _ _ hF => hF.elim)
+      exact G_ite (G_pure _ (fun h hd => ⟨hd, fun a e => by cases e; rfl⟩)) (G_fail _ (QD_err _))
+    refine G_bind h1 (fun got => ?_) (QD_err _) ?_
+    · cases got with
+      | none => exact LS_devWrite _ _
+      | some _ => exact LS_fail _ _
+    · intro got h hd hg
+      subst hg
+      exact (G_devWrite (c := c) _).1 h hd
+
+end hid
+
+/-! ### the protocol interface -/
+
+section proto
+variable {c : Cfg} (hstrict : c.tr = .serial → c.partialReads = false)
+include hstrict
+
+theorem G_readAny : G c readAny (QE c) := by
+  unfold readAny
+  refine G_getG (fun hf ht hc => by simp only [hc.cfgf, hc.cfgt]) (fun h0 e => ?_)
+  rw [e]
+  cases htr : c.tr with
+  | serial => exact G_serialRead htr (hstrict htr)
+  | hid => exact G_hidRead htr
+
+/-- a value is returned on a dead link only over HID (nothing is read back there) -/
+theorem G_writeCommand (p : CmdPkt) : G c (writeCommand p) (QT c) := by
+  unfold writeCommand
+  refine G_bindG (S := fun _ _ => True) (G_lift _ (fun h hd => ⟨hd, fun _ _ => trivial⟩)) (fun data => ?_) (QD_err _)
+  refine G_getG (fun hf ht hc => by simp only [hc.cfgf, hc.cfgt]) (fun h0 e => ?_)
+  rw [e]
+  cases htr : c.tr with
+  | serial => exact G_toQT (G_serialSendFrame htr (hstrict htr) _ _)
+  | hid => exact G_hidWriteReport _ _
+
+theorem G_writeData (a : Bool) (data : Bytes) : G c (writeData a data) (QD c (fun _ _ => c.tr ≠ .serial)) := by
+  unfold writeData
+  refine G_getG (fun hf ht hc => by simp only [hc.cfgf, hc.cfgt]) (fun h0 e => ?_)
+  rw [e]
+  cases htr : c.tr with
+  | serial => exact G_ofQE _ (G_serialSendFrame htr (hstrict htr) _ _)
+  | hid => exact G_mono (G_hidWriteData htr a data) (fun _ _ hq => QD_mono (fun _ _ _ _ => by intro h; cases h) hq)
+
+omit hstrict in
+theorem LS_requireOpen (Q : Except HErr Unit → Host → Prop) : LS c requireOpen Q := by
+  unfold requireOpen
+  exact LS_get (fun hf ht hc => by simp only [hc.opened]) (fun h0 _ => LS_ite (LS_pure _ _) (LS_fail _ _))
+
+omit hstrict in
+theorem G_requireOpen : G c requireOpen (QT c) := by
+  refine ⟨fun h hd => ?_, LS_requireOpen _⟩
+  unfold requireOpen
+  simp only [bind_run, get_run]
+  split
+  · exact ⟨hd, fun _ _ => trivial⟩
+  · exact ⟨hd, fun _ _ => trivial⟩
+
+/-- `_process_cmd` on a link that went dead: an exception, or the NO_RESPONSE pseudo response -/
+def Spc : Resp → Host → Prop := fun x h => x.status = Spec.stNoResponse ∧ h.status = Spec.stNoResponse
+
+theorem G_processCmd (p : CmdPkt) : G c (processCmd p) (QD c Spc) := by
+  unfold processCmd
+  refine G_bindG (G_requireOpen) (fun _ => ?_) (QD_err _)
+  have h1 : G c (catch_ (do writeCommand p; readAny)
+      (fun e => if e = .timeout then do setStatus Spec.stNoResponse; pure (.resp (noResponse p.tag)) else fail e))
+      (QD c (fun x h => ∃ r, x = .resp r ∧ Spc r h)) := by
+    refine G_catch (S := fun _ _ => False) (G_bindG (G_writeCommand hstrict p) (fun _ => G_readAny hstrict) (QD_err _))
+      (fun e => ?_) (fun _ _ _ hF => hF.elim)
+    refine G_ite (G_bind (G_setStatus _) (fun _ => LS_pure _ _) (QD_err _) ?_) (G_fail _ (QD_err _))
+    intro _ h hd hs
+    exact ⟨hd, fun a e => by cases e; exact ⟨_, rfl, rfl, hs⟩⟩
+  refine G_bind h1 (fun x => ?_) (QD_err _) ?_
+  · cases x with
+    | data _ => exact LS_fail _ _
+    | resp r =>
+      refine LS_bindE (LS_setStatus _ _) (fun _ => ?_) (QD_err _)
+      exact LS_get (fun hf ht hc => by simp only [hc.cfgf, hc.cfgt]) (fun h0 _ => LS_ite (LS_fail _ _) (LS_pure _ _))
+  · rintro x h hd ⟨r, rfl, h1, h2⟩
+    simp only [bind_run, setStatus_run, get_run]
+    split
+    · exact ⟨dead_status _ hd, fun _ e => by cases e⟩
+    · exact ⟨dead_status _ hd, fun a e => by cases e; exact ⟨h1, h1⟩⟩
+
+omit hstrict in
+theorem Spc_ne {r : Resp} {h : Host} (hs : Spc r h) : ¬ r.status = Spec.stSuccess := by
+  rw [hs.1]; decide
+
+theorem G_getProperty (t i : Nat) : G c (getProperty t i) (QD c (fun v _ => v = none)) := by
+  unfold getProperty
+  refine G_bind (G_processCmd hstrict _) (fun r => ?_) (QD_err _) ?_
+  · exact LS_ite (LS_ite (LS_pure _ _) (LS_fail _ _)) (LS_pure _ _)
+  · intro r h hd hs
+    simp only [Spc_ne hs, if_false, pure_run]
+    exact ⟨hd, fun a e => by cases e; rfl⟩
+
+omit hstrict in
+theorem cut_mps {c : Cfg} {hf ht : Host} (x : Option Nat) (h : Cut c hf ht) :
+    Cut c { hf with mps := x } { ht with mps := x } :=
+  ⟨h.cfgf, h.cfgt, h.status, rfl, h.eda, h.opened, h.txRev, h.fuelHint, h.preB, h.preR, h.stream⟩
+
+theorem G_getMaxPacketSize : G c getMaxPacketSize (QT c) := by
+  unfold getMaxPacketSize
+  refine G_getG (fun hf ht hc => by simp only [hc.mps]) (fun h0 _ => ?_)
+  cases h0.mps with
+  | some v => exact G_pure _ (fun h hd => ⟨hd, fun _ _ => trivial⟩)
+  | none =>
+    simp only
+    refine G_bindG (S := fun _ _ => True) ?_ (fun v => ?_) (QD_err _)
+    · refine G_catch (G_getProperty hstrict _ _) (fun e => ?_) (fun a h hd _ => ⟨hd, fun _ _ => trivial⟩)
+      exact G_ite (G_pure _ (fun h hd => ⟨hd, fun _ _ => trivial⟩)) (G_fail _ (QD_err _))
+    · split
+      · exact G_fail _ (QD_err _)
+      · refine G_bindG (S := fun _ _ => True) (G_modify (fun _ _ h => cut_mps _ h) ?_) (fun _ => ?_) (QD_err _)
+        · exact fun h hd => ⟨⟨hd.cfg, hd.peer, hd.rxB, hd.rxR⟩, fun _ _ => trivial⟩
+        · exact G_pure _ (fun h hd => ⟨hd, fun _ _ => trivial⟩)
+
+theorem G_splitData (data : Bytes) : G c (splitData data) (QD c (fun chunks _ => data ≠ [] → chunks ≠ [])) := by
+  unfold splitData
+  refine G_bindG (G_getMaxPacketSize hstrict) (fun n => ?_) (QD_err _)
+  refine G_dite (fun _ => G_fail _ (QD_err _)) (fun hn => G_pure _ (fun h hd => ⟨hd, fun a e hd' => ?_⟩))
+  cases e
+  rw [split_cons n (by omega) data hd']
+  simp
+
+end proto
+
+/-! ### data phases -/
+
+theorem HT_bind0 {α β} {P : Host → Prop} {m : H α} {f : α → H β} {Q₁ : Except HErr α → Host → Prop}
+    {Q : Except HErr β → Host → Prop}
+    (hm : HT P m Q₁) (he : ∀ e h, Q₁ (.error e) h → Q (.error e) h)
+    (hk : ∀ a h, Q₁ (.ok a) h → Q (f a h).1 (f a h).2) : HT P (m >>= f) Q := by
+  intro h hp
+  have := hm h hp
+  simp only [bind_run]
+  rcases hmh : m h with ⟨r, h'⟩
+  rw [hmh] at this
+  cases r with
+  | error e => exact he e h' this
+  | ok a => exact hk a h' this
+
+theorem LS_bind0 {c : Cfg} {α β} {m : H α} {f : α → H β} {Q₁ : Except HErr α → Host → Prop}
+    {Q : Except HErr β → Host → Prop}
+    (hm : LS c m Q₁) (hf : ∀ a, LS c (f a) Q) (he : ∀ e h, Q₁ (.error e) h → Q (.error e) h)
+    (hk : ∀ a h, Q₁ (.ok a) h → Q (f a h).1 (f a h).2) : LS c (m >>= f) Q := by
+  intro hf' ht' hc
+  have := hm hf' ht' hc
+  simp only [bind_run]
+  rcases hmf : m hf' with ⟨rf, sf⟩
+  rcases hmt : m ht' with ⟨rt, st⟩
+  rw [hmf, hmt] at this
+  rcases this with ⟨e, hc'⟩ | hq
+  · simp only at e hc'
+    subst e
+    cases rt with
+    | error e => exact Or.inl ⟨rfl, hc'⟩
+    | ok a => exact hf a sf st hc'
+  · simp only at hq
+    cases rt with
+    | error e => exact Or.inr (he e st hq)
+    | ok a => exact Or.inr (hk a st hq)
+
+/-- failure class of the read side: an exception, or a status that is not SUCCESS -/
+def QS {α} : Except HErr α → Host → Prop := fun r h => (∃ e, r = .error e) ∨ h.status ≠ Spec.stSuccess
+
+theorem QS_err {α} (e : HErr) (h : Host) : QS (.error e : Except HErr α) h := Or.inl ⟨e, rfl⟩
+
+/-- the loop fuel ran out on the cut side (it starts with less), or the standard class -/
+def QF (c : Cfg) {α} (S : α → Host → Prop) : Except HErr α → Host → Prop :=
+  fun r h => r = .error .fuel ∨ QD c S r h
+
+/-- one round of the `_read_data` loop -/
+def rdStep : H (Option RxItem) :=
+  catch_ (do let x ← readAny; pure (some x))
+    (fun e =>
+      if e = .abort then (do let x ← readAny; pure (some x))
+      else if e = .timeout then (do setStatus Spec.stNoResponse; pure none)
+      else fail e)
+
+theorem readDataLoop_succ (tag f : Nat) (acc : Bytes) :
+    readDataLoop tag (f + 1) acc = (rdStep >>= fun r =>
+      match r with
+      | none => pure acc
+      | some (.data b) => readDataLoop tag f (acc ++ b)
+      | some (.resp r) =>
+        if r.kind = .generic then do
+          setStatus r.status
+          if r.cmdTag = tag then pure acc else readDataLoop tag f acc
+        else readDataLoop tag f acc) := rfl
+
+/-- the tail of `_read_data` after the loop -/
+def rdTail (length : Nat) (data : Bytes) : H Bytes := do
+  let h ← get
+  if data.length < length ∨ h.status ≠ Spec.stSuccess then do
+    if h.status = Spec.stSuccess then setStatus Spec.stFail
+    let h ← get
+    if h.cfg.cmdExc then fail (.cmd h.status) else pure (data.take length)
+  else pure (data.take length)
+
+theorem readData_eq (tag length : Nat) :
+    readData tag length = (requireOpen >>= fun _ => get >>= fun h =>
+      readDataLoop tag (length + h.fuelHint + h.rxB.length + h.rxR.length + 8) [] >>= rdTail length) := rfl
+
+section data
+variable {c : Cfg} (hstrict : c.tr = .serial → c.partialReads = false)
+include hstrict
+
+def Snr : Option RxItem → Host → Prop := fun r h => r = none ∧ h.status = Spec.stNoResponse
+
+theorem G_rdStep : G c rdStep (QD c Snr) := by
+  unfold rdStep
+  have hr : G c (do let x ← readAny; pure (some x)) (QE c) :=
+    G_bindE (G_readAny hstrict) (fun _ => LS_pure _ _) (QD_err _)
+  refine G_catch hr (fun e => ?_) (fun _ _ _ hF => hF.elim)
+  refine G_ite (G_ofQE _ hr) (G_ite ?_ (G_fail _ (QD_err _)))
+  refine G_bind (G_setStatus _) (fun _ => LS_pure _ _) (QD_err _) ?_
+  intro _ h hd hs
+  exact ⟨hd, fun a e => by cases e; exact ⟨rfl, hs⟩⟩
+
+theorem HT_readDataLoop (tag f : Nat) (acc : Bytes) :
+    HT (Dead c) (readDataLoop tag f acc) (QF c (fun _ h => h.status = Spec.stNoResponse)) := by
+  cases f with
+  | zero => exact fun h _ => Or.inl rfl
+  | succ f =>
+    rw [readDataLoop_succ]
+    refine HT_bind (G_rdStep hstrict).1 (fun e h hd => Or.inr (QD_err _ e h hd)) ?_
+    rintro r h hd ⟨rfl, hs⟩
+    exact Or.inr ⟨hd, fun _ _ => hs⟩
+
+theorem LS_readDataLoop (tag : Nat) : ∀ (ft ff : Nat) (acc : Bytes) (hf ht : Host), Cut c hf ht → ft ≤ ff →
+    Res c (QF c (fun _ h => h.status = Spec.stNoResponse)) (readDataLoop tag ff acc hf) (readDataLoop tag ft acc ht) := by
+  intro ft
+  induction ft with
+  | zero => intro ff acc hf ht _ _; exact Or.inr (Or.inl rfl)
+  | succ ft ih =>
+    intro ff acc hf ht hc hle
+    cases ff with
+    | zero => omega
+    | succ ff =>
+      have hle' : ft ≤ ff := by omega
+      rw [readDataLoop_succ, readDataLoop_succ]
+      simp only [bind_run]
+      have hr := (G_rdStep hstrict).2 hf ht hc
+      rcases hdf : rdStep hf with ⟨rf, sf⟩
+      rcases hdt : rdStep ht with ⟨rt, st⟩
+      rw [hdf, hdt] at hr
+      rcases hr with ⟨e, hc'⟩ | ⟨hd, hS⟩
+      · simp only at e hc'
+        subst e
+        cases rt with
+        | error e => exact Or.inl ⟨rfl, hc'⟩
+        | ok r =>
+          cases r with
+          | none => exact Or.inl ⟨rfl, hc'⟩
+          | some it =>
+            cases it with
+            | data b => exact ih ff _ sf st hc' hle'
+            | resp r =>
+              simp only
+              by_cases hk : r.kind = .generic
+              · simp only [hk, if_true, bind_run, setStatus_run]
+                by_cases ht' : r.cmdTag = tag
+                · simp only [ht', if_true]
+                  exact Or.inl ⟨rfl, cut_status _ hc'⟩
+                · simp only [ht', if_false]
+                  exact ih ff _ _ _ (cut_status _ hc') hle'
+              · simp only [hk, if_false]
+                exact ih ff _ sf st hc' hle'
+      · simp only at hd hS
+        cases rt with
+        | error e => exact Or.inr (Or.inr ⟨hd, fun _ e => by cases e⟩)
+        | ok r =>
+          obtain ⟨rfl, hs⟩ := hS r rfl
+          exact Or.inr (Or.inr ⟨hd, fun _ _ => hs⟩)
+
+omit hstrict in
+theorem LS_rdTail (length : Nat) (data : Bytes) (Q : Except HErr Bytes → Host → Prop) (he : ErrOK c Q) :
+    LS c (rdTail length data) Q := by
+  unfold rdTail
+  refine LS_get (fun hf ht hc => by simp only [hc.status]) (fun h0 _ => ?_)
+  refine LS_ite ?_ (LS_pure _ _)
+  have hj : LS c (do
+      let h ← H.get
+      if h.cfg.cmdExc = true then fail (HErr.cmd h.status) else pure (List.take length data)) Q :=
+    LS_get (fun hf ht hc => by simp only [hc.cfgf, hc.cfgt, hc.status]) (fun h1 _ => LS_ite (LS_fail _ _) (LS_pure _ _))
+  dsimp only
+  exact LS_ite (LS_bindE (LS_setStatus _ _) (fun _ => hj) he) hj
+
+omit hstrict in
+theorem rdTail_bad (length : Nat) (data : Bytes) (h : Host) (hs : h.status = Spec.stNoResponse) :
+    QS (rdTail length data h).1 (rdTail length data h).2 := by
+  have h1 : h.status ≠ Spec.stSuccess := by rw [hs]; decide
+  unfold rdTail
+  simp only [bind_run, get_run, h1, ne_eq, not_false_eq_true, or_true, if_true, if_false]
+  split
+  · exact QS_err _ _
+  · exact Or.inr h1
+
+omit hstrict in
+theorem QF_tail (length : Nat) (r : Except HErr Bytes) (h : Host)
+    (hq : QF c (fun _ h => h.status = Spec.stNoResponse) r h) :
+    (∃ e, r = .error e) ∨ (∃ a, r = .ok a ∧ QS (rdTail length a h).1 (rdTail length a h).2) := by
+  cases r with
+  | error e => exact Or.inl ⟨e, rfl⟩
+  | ok a =>
+    rcases hq with hq | ⟨_, hS⟩
+    · cases hq
+    · exact Or.inr ⟨a, rfl, rdTail_bad length a h (hS a rfl)⟩
+
+theorem HT_readData (tag length : Nat) : HT (Dead c) (readData tag length) QS := by
+  intro h hd
+  rw [readData_eq]
+  simp only [bind_run, requireOpen, get_run]
+  by_cases ho : h.opened = true
+  · simp only [ho, if_true, pure_run]
+    have := HT_readDataLoop hstrict tag (length + h.fuelHint + h.rxB.length + h.rxR.length + 8) [] h hd
+    rcases hl : readDataLoop tag (length + h.fuelHint + h.rxB.length + h.rxR.length + 8) [] h with ⟨r, h'⟩
+    rw [hl] at this
+    rcases QF_tail length r h' this with ⟨e, rfl⟩ | ⟨a, rfl, hq⟩
+    · exact QS_err _ _
+    · exact hq
+  · simp only [ho, Bool.false_eq_true, if_false, fail_run]
+    exact QS_err _ _
+
+theorem LS_readData (tag length : Nat) : LS c (readData tag length) QS := by
+  intro hf ht hc
+  rw [readData_eq]
+  simp only [bind_run, requireOpen, get_run, hc.opened]
+  by_cases ho : hf.opened = true
+  · simp only [ho, if_true, pure_run]
+    have hle : length + ht.fuelHint + ht.rxB.length + ht.rxR.length + 8 ≤
+        length + hf.fuelHint + hf.rxB.length + hf.rxR.length + 8 := by
+      have := hc.preB.length_le
+      have := hc.preR.length_le
+      rw [hc.fuelHint]
+      omega
+    have hr := LS_readDataLoop hstrict tag _ _ [] hf ht hc hle
+    rcases hlf : readDataLoop tag (length + hf.fuelHint + hf.rxB.length + hf.rxR.length + 8) [] hf with ⟨rf, sf⟩
+    rcases hlt : readDataLoop tag (length + ht.fuelHint + ht.rxB.length + ht.rxR.length + 8) [] ht with ⟨rt, st⟩
+    rw [hlf, hlt] at hr
+    rcases hr with ⟨e, hc'⟩ | hq
+    · simp only at e hc'
+      subst e
+      cases rt with
+      | error e => exact Or.inl ⟨rfl, hc'⟩
+      | ok a => exact LS_rdTail length a QS (fun e h _ => QS_err e h) sf st hc'
+    · simp only at hq
+      rcases QF_tail length rt st hq with ⟨e, rfl⟩ | ⟨a, rfl, hq'⟩
+      · exact Or.inr (QS_err _ _)
+      · exact Or.inr hq'
+  · simp only [ho, Bool.false_eq_true, if_false, fail_run]
+    exact Or.inl ⟨rfl, hc⟩
+
+theorem LS_readChunks (a m pl rem packets : Nat) : ∀ (k : Nat) (acc : Bytes),
+    LS c (readChunks a m pl rem packets k acc) QS := by
+  intro k
+  induction k with
+  | zero => intro acc; exact LS_pure _ _
+  | succ k ih =>
+    intro acc
+    unfold readChunks
+    dsimp only
+    refine LS_bind (G_processCmd hstrict _).2 (fun r => ?_) (fun e h _ => QS_err e h) ?_
+    · refine LS_ite ?_ (LS_pure _ _)
+      refine LS_bind0 (LS_readData hstrict _ _) (fun d => ?_) (fun e h _ => QS_err e h) ?_
+      · exact LS_get (fun hf ht hc => by simp only [hc.status]) (fun h0 _ => LS_ite (LS_pure _ _) (ih _))
+      · intro d h hq
+        rcases hq with ⟨e, he⟩ | hq
+        · cases he
+        · simp only [bind_run, get_run, hq, ne_eq, not_false_eq_true, if_true, pure_run]
+          exact Or.inr hq
+    · intro r h hd hs
+      simp only [Spc_ne hs, if_false, pure_run]
+      exact Or.inr (by rw [hs.2]; decide)
+
+theorem HT_readChunks (a m pl rem packets k : Nat) (acc : Bytes) :
+    HT (Dead c) (readChunks a m pl rem packets (k + 1) acc) QS := by
+  unfold readChunks
+  dsimp only
+  refine HT_bind (G_processCmd hstrict _).1 (fun e h _ => QS_err e h) ?_
+  intro r h hd hs
+  simp only [Spc_ne hs, if_false, pure_run]
+  exact Or.inr (by rw [hs.2]; decide)
+
+/-- over the serial link every data packet waits for its ACK: a dead link is always noticed -/
+def Ssc : Nat × Option HErr → Host → Prop := fun p _ => p.2 ≠ none
+
+theorem HT_sendChunks (a : Bool) : ∀ (cs : List Bytes) (s0 : Nat),
+    HT (Dead c) (sendChunks a cs s0) (QD c (fun p _ => c.tr = .serial → cs ≠ [] → p.2 ≠ none)) := by
+  intro cs
+  induction cs with
+  | nil => intro s0 h hd; exact ⟨hd, fun _ _ _ hne => absurd rfl hne⟩
+  | cons x cs ih =>
+    intro s0 h hd
+    simp only [sendChunks]
+    have hw := (G_writeData hstrict a x).1 h hd
+    rcases hwd : writeData a x h with ⟨r, h'⟩
+    rw [hwd] at hw
+    cases r with
+    | error e => exact ⟨hw.1, fun p e _ _ => by cases e; simp⟩
+    | ok u =>
+      have hns := hw.2 u rfl
+      have := ih (s0 + x.length) h' hw.1
+      exact ⟨this.1, fun p e hs _ => absurd hs hns⟩
+
+theorem LS_sendChunks (a : Bool) : ∀ (cs : List Bytes) (s0 : Nat),
+    LS c (sendChunks a cs s0) (QD c (fun p _ => c.tr = .serial → p.2 ≠ none)) := by
+  intro cs
+  induction cs with
+  | nil => intro s0; exact LS_pure _ _
+  | cons x cs ih =>
+    intro s0 hf ht hc
+    simp only [sendChunks]
+    have hr := (G_writeData hstrict a x).2 hf ht hc
+    rcases hwf : writeData a x hf with ⟨rf, sf⟩
+    rcases hwt : writeData a x ht with ⟨rt, st⟩
+    rw [hwf, hwt] at hr
+    rcases hr with ⟨e, hc'⟩ | ⟨hd, hS⟩
+    · simp only at e hc'
+      subst e
+      cases rt with
+      | error e => exact Or.inl ⟨rfl, hc'⟩
+      | ok u => exact ih _ sf st hc'
+    · simp only at hd hS
+      cases rt with
+      | error e => exact Or.inr ⟨hd, fun p e _ => by cases e; simp⟩
+      | ok u =>
+        have hns := hS u rfl
+        have := HT_sendChunks hstrict a cs (s0 + x.length) st hd
+        exact Or.inr ⟨this.1, fun p e hs => absurd hs hns⟩
+
+theorem G_sendChunks (a : Bool) (cs : List Bytes) (s0 : Nat) : G c (sendChunks a cs s0) (QT c) :=
+  ⟨fun h hd => QD_mono (fun _ _ _ _ => trivial) (HT_sendChunks hstrict a cs s0 h hd),
+   fun hf ht hc => (LS_sendChunks hstrict a cs s0 hf ht hc).imp id (QD_mono (fun _ _ _ _ => trivial))⟩
+
+theorem G_sendDataHandler (e : HErr) : G c (sendDataHandler e) (QE c) := by
+  unfold sendDataHandler
+  refine G_ite (G_bindG (G_setStatus _) (fun _ => G_fail _ (QD_err _)) (QD_err _)) ?_
+  exact G_ite (G_readAny hstrict) (G_fail _ (QD_err _))
+
+omit hstrict in
+theorem cut_eda {c : Cfg} {hf ht : Host} (x : Bool) (h : Cut c hf ht) :
+    Cut c { hf with eda := x } { ht with eda := x } :=
+  ⟨h.cfgf, h.cfgt, h.status, h.mps, rfl, h.opened, h.txRev, h.fuelHint, h.preB, h.preR, h.stream⟩
+
+theorem G_sendData (chunks : List Bytes) : G c (sendData chunks) (QE c) := by
+  unfold sendData
+  refine G_bindG G_requireOpen (fun _ => ?_) (QD_err _)
+  refine G_getG (fun hf ht hc => by simp only [hc.cfgf, hc.cfgt, hc.eda]) (fun h0 _ => ?_)
+  dsimp only
+  refine G_bindG (G_sendChunks hstrict _ _ _) (fun p => ?_) (QD_err _)
+  obtain ⟨sent, err⟩ := p
+  dsimp only
+  have hK : ∀ r : RxItem, LS c (match r with
+      | .data _ => fail .other
+      | .resp r => do
+        setStatus r.status
+        if r.status ≠ Spec.stSuccess then
+          if h0.cfg.cmdExc then fail (.cmd r.status) else pure false
+        else pure (sent == (chunks.map List.length).sum) : H Bool) (QE c) := by
+    intro r
+    cases r with
+    | data _ => exact LS_fail _ _
+    | resp r =>
+      refine LS_bindE (LS_setStatus _ _) (fun _ => ?_) (QD_err _)
+      exact LS_ite (LS_ite (LS_fail _ _) (LS_pure _ _)) (LS_pure _ _)
+  cases err with
+  | none =>
+    exact G_bindE (G_catch (G_readAny hstrict) (fun e => G_sendDataHandler hstrict e) (fun _ _ _ hF => hF.elim)) hK (QD_err _)
+  | some e => exact G_bindE (G_sendDataHandler hstrict e) hK (QD_err _)
+
+omit hstrict in
+theorem noResp_tail (sent total : Nat) (e : HErr) (h : Host) :
+    QS ((if e = .timeout then do setStatus Spec.stNoResponse; fail .conn
+          else if e.isSpsdk then do setStatus Spec.stSendingOperationConditionError; pure (sent == total)
+          else fail e : H Bool) h).1
+      ((if e = .timeout then do setStatus Spec.stNoResponse; fail .conn
+          else if e.isSpsdk then do setStatus Spec.stSendingOperationConditionError; pure (sent == total)
+          else fail e : H Bool) h).2 := by
+  split
+  · exact QS_err _ _
+  · split
+    · exact Or.inr (by simp only [bind_run, setStatus_run, pure_run]; decide)
+    · exact QS_err _ _
+
+theorem LS_sendDataNoResp (htr : c.tr = .serial) (chunks : List Bytes) : LS c (sendDataNoResp chunks) QS := by
+  unfold sendDataNoResp
+  refine LS_bindE (LS_requireOpen _) (fun _ => ?_) (fun e h _ => QS_err e h)
+  refine LS_get (fun hf ht hc => by simp only [hc.eda]) (fun h0 _ => ?_)
+  dsimp only
+  refine LS_bind (LS_sendChunks hstrict _ _ _) (fun p => ?_) (fun e h _ => QS_err e h) ?_
+  · obtain ⟨sent, err⟩ := p
+    dsimp only
+    cases err with
+    | none => exact LS_pure _ _
+    | some e =>
+      refine LS_ite (LS_bindE (LS_setStatus _ _) (fun _ => LS_fail _ _) (fun e h _ => QS_err e h)) ?_
+      exact LS_ite (LS_bindE (LS_setStatus _ _) (fun _ => LS_pure _ _) (fun e h _ => QS_err e h)) (LS_fail _ _)
+  · rintro ⟨sent, err⟩ h hd hs
+    cases err with
+    | none => exact absurd rfl (hs htr)
+    | some e => exact noResp_tail sent _ e h
+
+theorem HT_sendDataNoResp (htr : c.tr = .serial) (chunks : List Bytes) (hne : chunks ≠ []) :
+    HT (Dead c) (sendDataNoResp chunks) QS := by
+  unfold sendDataNoResp
+  refine HT_bind (G_requireOpen).1 (fun e h _ => QS_err e h) ?_
+  intro _ h hd _
+  simp only [bind_run, get_run]
+  have := HT_sendChunks hstrict h.eda chunks 0 h hd
+  rcases hsc : sendChunks h.eda chunks 0 h with ⟨r, h'⟩
+  rw [hsc] at this
+  cases r with
+  | error e => exact QS_err _ _
+  | ok p =>
+    obtain ⟨sent, err⟩ := p
+    cases err with
+    | none => exact absurd rfl (this.2 (sent, none) rfl htr hne)
+    | some e => exact noResp_tail sent _ e h'
+
+end data
+
+/-! ### the operations -/
+
+theorem NS_of_QS {α} (f : α → Val) {r : Except HErr α} {h : Host} (hq : QS r h) : NS (r.map f) h := by
+  rcases hq with ⟨e, rfl⟩ | hq
+  · exact not_succeeded_error _ _
+  · exact not_succeeded_status _ _ hq
+
+section ops
+variable {c : Cfg} (hstrict : c.tr = .serial → c.partialReads = false)
+include hstrict
+
+theorem G_simpleCmd (tag : Nat) (ps : List Nat) : G c (simpleCmd tag ps) NS := by
+  unfold simpleCmd
+  refine G_bind (G_processCmd hstrict _) (fun r => LS_pure _ _) NS_err ?_
+  intro r h hd hs
+  simp only [pure_run, Spc_ne hs, decide_false]
+  exact not_succeeded_false _
+
+theorem G_getPropertyOp (t i : Nat) : G c (runOp (.getProperty t i)) NS := by
+  simp only [runOp]
+  refine G_bind (G_getProperty hstrict t i) (fun v => ?_) NS_err ?_
+  · cases v <;> exact LS_pure _ _
+  · intro v h hd hv
+    subst hv
+    exact not_succeeded_none _
+
+/-- `readData …; pure (.bytes d)` -/
+theorem LS_readBytes (tag n : Nat) : LS c (do let d ← readData tag n; pure (Val.bytes d)) NS := by
+  refine LS_bind0 (LS_readData hstrict tag n) (fun d => LS_pure _ _) (fun e h _ => not_succeeded_error e h) ?_
+  intro d h hq
+  rcases hq with ⟨e, he⟩ | hq
+  · cases he
+  · exact not_succeeded_status _ _ hq
+
+theorem G_dataInCmd (tag : Nat) (ps : List Nat) (k : RKind) : G c (dataInCmd tag ps k) NS := by
+  unfold dataInCmd
+  refine G_bind (G_processCmd hstrict _) (fun r => ?_) NS_err ?_
+  · exact LS_ite (LS_ite (LS_readBytes hstrict _ _) (LS_fail _ _)) (LS_pure _ _)
+  · intro r h hd hs
+    simp only [Spc_ne hs, if_false, pure_run]
+    exact not_succeeded_none _
+
+theorem G_readMemory (a n m : Nat) (fast : Bool) (ht : ¬ (c.usb = true ∧ fast = false ∧ n = 0)) :
+    G c (readMemory a n m fast) NS := by
+  unfold readMemory
+  dsimp only
+  refine G_getG (fun hf ht hc => by simp only [hc.cfgf, hc.cfgt]) (fun h0 e => ?_)
+  rw [e]
+  refine G_dite (fun hu => ?_) (fun _ => ?_)
+  · refine G_bindG (G_getMaxPacketSize hstrict) (fun payload => ?_) NS_err
+    refine G_dite (fun _ => G_fail _ NS_err) (fun hp => ?_)
+    have hn : n ≠ 0 := by
+      intro e; exact ht ⟨hu.1, by simpa using hu.2, e⟩
+    have hpk : n / payload + (if n % payload ≠ 0 then 1 else 0) ≠ 0 := by
+      intro e
+      have h2 : n % payload = 0 := by
+        by_cases hc : n % payload = 0
+        · exact hc
+        · simp [hc] at e
+      have h1 : n / payload = 0 := by
+        rw [h2] at e
+        have e' : n / payload + 0 = 0 := by simpa using e
+        simpa using e'
+      have := Nat.div_add_mod n payload
+      rw [h1, h2] at this; simp at this; exact hn this.symm
+    obtain ⟨k, hk⟩ := Nat.exists_eq_succ_of_ne_zero hpk
+    refine ⟨?_, ?_⟩
+    · refine HT_bind0 (Q₁ := QS) ?_ (fun e h _ => not_succeeded_error e h) ?_
+      · rw [hk]; exact HT_readChunks hstrict _ _ _ _ _ k []
+      · intro d h hq
+        rcases hq with ⟨e, he⟩ | hq
+        · cases he
+        · exact not_succeeded_status _ _ hq
+    · refine LS_bind0 (LS_readChunks hstrict _ _ _ _ _ _ _) (fun d => LS_pure _ _) (fun e h _ => not_succeeded_error e h) ?_
+      intro d h hq
+      rcases hq with ⟨e, he⟩ | hq
+      · cases he
+      · exact not_succeeded_status _ _ hq
+  · refine G_bind (G_processCmd hstrict _) (fun r => ?_) NS_err ?_
+    · exact LS_ite (LS_ite (LS_readBytes hstrict _ _) (LS_fail _ _)) (LS_pure _ _)
+    · intro r h hd hs
+      simp only [Spc_ne hs, if_false, pure_run]
+      exact not_succeeded_none _
+
+theorem LS_sendBool (chunks : List Bytes) : LS c (do let ok ← sendData chunks; pure (Val.bool ok)) NS :=
+  LS_bindE (G_sendData hstrict chunks).2 (fun _ => LS_pure _ _) NS_err
+
+theorem G_dataOutCmd (tag : Nat) (ps : List Nat) (data : Bytes) : G c (dataOutCmd tag ps data) NS := by
+  unfold dataOutCmd
+  refine G_bindG (G_splitData hstrict data) (fun chunks => ?_) NS_err
+  refine G_bind (G_processCmd hstrict _) (fun r => ?_) NS_err ?_
+  · exact LS_ite (LS_sendBool hstrict _) (LS_pure _ _)
+  · intro r h hd hs
+    simp only [Spc_ne hs, if_false, pure_run]
+    exact not_succeeded_false _
+
+theorem G_writeMemory (a : Nat) (data : Bytes) (m : Nat) : G c (writeMemory a data m) NS := by
+  unfold writeMemory
+  refine G_bindG (G_splitData hstrict data) (fun chunks => ?_) NS_err
+  dsimp only
+  refine G_bind (G_processCmd hstrict _) (fun r => ?_) NS_err ?_
+  · exact LS_ite (LS_sendBool hstrict _) (LS_pure _ _)
+  · intro r h hd hs
+    simp only [Spc_ne hs, if_false, pure_run]
+    exact not_succeeded_false _
+
+theorem G_receiveSbFile (data : Bytes) (ce : Bool) : G c (receiveSbFile data ce) NS := by
+  unfold receiveSbFile
+  refine G_bindG (G_splitData hstrict data) (fun chunks => ?_) NS_err
+  refine G_bind (G_processCmd hstrict _) (fun r => ?_) NS_err ?_
+  · refine LS_ite ?_ (LS_pure _ _)
+    refine LS_bindE (LS_modify _ (fun _ _ h => cut_eda _ h)) (fun _ => ?_) NS_err
+    refine LS_bindE (G_sendData hstrict chunks).2 (fun ok => ?_) NS_err
+    exact LS_bindE (LS_modify _ (fun _ _ h => cut_eda _ h)) (fun _ => LS_pure _ _) NS_err
+  · intro r h hd hs
+    simp only [Spc_ne hs, if_false, pure_run]
+    exact not_succeeded_false _
+
+theorem G_loadImage (htr : c.tr = .serial) (data : Bytes) (hne : data ≠ []) : G c (loadImage data) NS := by
+  unfold loadImage
+  refine G_bind (G_splitData hstrict data) (fun chunks => ?_) NS_err ?_
+  · refine LS_bindE (LS_setStatus _ _) (fun _ => ?_) NS_err
+    refine LS_bind0 (LS_sendDataNoResp hstrict htr chunks) (fun ok => LS_pure _ _) (fun e h _ => not_succeeded_error e h) ?_
+    intro d h hq
+    rcases hq with ⟨e, he⟩ | hq
+    · cases he
+    · exact not_succeeded_status _ _ hq
+  · intro chunks h hd hs
+    have hq := HT_sendDataNoResp hstrict htr chunks (hs hne) _ (dead_status Spec.stSuccess hd)
+    simp only [bind_run, setStatus_run]
+    rcases hsd : sendDataNoResp chunks { h with status := Spec.stSuccess } with ⟨r, h'⟩
+    rw [hsd] at hq
+    rcases hq with ⟨e, he⟩ | hq
+    · simp only at he; subst he; exact not_succeeded_error _ _
+    · cases r with
+      | error e => exact not_succeeded_error _ _
+      | ok b => exact not_succeeded_status _ _ hq
+
+theorem G_efuseReadOnce (i : Nat) : G c (efuseReadOnce i) (QD c (fun v _ => v = none)) := by
+  unfold efuseReadOnce
+  refine G_bind (G_processCmd hstrict _) (fun r => ?_) (QD_err _) ?_
+  · refine LS_ite (LS_ite ?_ (LS_fail _ _)) (LS_pure _ _)
+    split
+    · exact LS_pure _ _
+    · exact LS_fail _ _
+  · intro r h hd hs
+    simp only [Spc_ne hs, if_false, pure_run]
+    exact ⟨hd, fun a e => by cases e; rfl⟩
+
+theorem G_efuseReadOnceOp (i : Nat) : G c (runOp (.efuseReadOnce i)) NS := by
+  simp only [runOp]
+  refine G_bind (G_efuseReadOnce hstrict i) (fun v => ?_) NS_err ?_
+  · cases v <;> exact LS_pure _ _
+  · intro v h hd hv
+    subst hv
+    exact not_succeeded_none _
+
+theorem G_efuseProgramOnce (i v : Nat) (verify : Bool) : G c (efuseProgramOnce i v verify) NS := by
+  unfold efuseProgramOnce
+  refine G_bind (G_processCmd hstrict _) (fun r => ?_) NS_err ?_
+  · refine LS_ite (LS_pure _ _) (LS_ite ?_ (LS_pure _ _))
+    refine LS_bind (G_efuseReadOnce hstrict _).2 (fun rv => ?_) NS_err ?_
+    · cases rv with
+      | none => exact LS_pure _ _
+      | some x => exact LS_ite (LS_pure _ _) (LS_bindE (LS_setStatus _ _) (fun _ => LS_pure _ _) NS_err)
+    · intro rv h hd hv
+      subst hv
+      exact not_succeeded_false _
+  · intro r h hd hs
+    simp only [ne_eq, Spc_ne hs, not_false_eq_true, if_true, pure_run]
+    exact not_succeeded_false _
+
+theorem G_flashReadOnce (i n : Nat) : G c (flashReadOnce i n) NS := by
+  unfold flashReadOnce
+  refine G_ite (G_fail _ NS_err) ?_
+  refine G_bind (G_processCmd hstrict _) (fun r => ?_) NS_err ?_
+  · exact LS_ite (LS_ite (LS_pure _ _) (LS_fail _ _)) (LS_pure _ _)
+  · intro r h hd hs
+    simp only [Spc_ne hs, if_false, pure_run]
+    exact not_succeeded_none _
+
+theorem G_flashProgramOnce (i : Nat) (d : Bytes) : G c (flashProgramOnce i d) NS := by
+  unfold flashProgramOnce
+  refine G_ite (G_fail _ NS_err) ?_
+  refine G_bind (G_processCmd hstrict _) (fun r => LS_pure _ _) NS_err ?_
+  intro r h hd hs
+  simp only [pure_run, Spc_ne hs, decide_false]
+  exact not_succeeded_false _
+
+end ops
+
+/-! ### `open` over the serial link -/
+
+theorem cut_opened {c : Cfg} {hf ht : Host} (x : Bool) (h : Cut c hf ht) :
+    Cut c { hf with opened := x } { ht with opened := x } :=
+  ⟨h.cfgf, h.cfgt, h.status, h.mps, h.eda, rfl, h.txRev, h.fuelHint, h.preB, h.preR, h.stream⟩
+
+theorem dead_opened {c : Cfg} {h : Host} (x : Bool) (hd : Dead c h) : Dead c { h with opened := x } :=
+  ⟨hd.cfg, hd.peer, hd.rxB, hd.rxR⟩
+
+section opening
+variable {c : Cfg} (htr : c.tr = .serial) (hstrict : c.partialReads = false)
+include htr hstrict
+
+theorem LS_pingDummyLoop : ∀ f : Nat, LS c (pingDummyLoop f) (QE c) := by
+  intro f
+  induction f with
+  | zero => exact LS_pure _ _
+  | succ f ih =>
+    unfold pingDummyLoop
+    exact LS_bindE (G_devRead htr hstrict 1).2 (fun b => LS_ite (LS_pure _ _) ih) (QD_err _)
+
+theorem HT_pingDummyLoop (f : Nat) : HT (Dead c) (pingDummyLoop (f + 1)) (QE c) := by
+  unfold pingDummyLoop
+  exact HT_bind (G_devRead htr hstrict 1).1 (QD_err _) (fun _ _ _ hF => hF.elim)
+
+theorem G_ping : G c ping (QE c) := by
+  unfold ping
+  refine ⟨?_, ?_⟩
+  · refine HT_bind (G_devWrite (c := c) _).1 (QD_err _) ?_
+    intro _ h hd _
+    exact HT_bind (HT_pingDummyLoop htr hstrict 49) (QD_err _) (fun _ _ _ hF => hF.elim) h hd
+  · refine LS_bindE (LS_devWrite _ _) (fun _ => ?_) (QD_err _)
+    refine LS_bindE (LS_pingDummyLoop htr hstrict _) (fun found => ?_) (QD_err _)
+    refine LS_ite (LS_fail _ _) ?_
+    refine LS_bindE (G_devRead htr hstrict 1).2 (fun t => ?_) (QD_err _)
+    refine LS_ite (LS_fail _ _) (LS_ite (LS_fail _ _) ?_)
+    refine LS_bindE (G_devRead htr hstrict 8).2 (fun body => ?_) (QD_err _)
+    exact LS_ite (LS_fail _ _) (LS_ite (LS_fail _ _) (LS_pure _ _))
+
+theorem G_openSerial : ∀ k : Nat, G c (openSerial k) (QE c) := by
+  intro k
+  induction k with
+  | zero => exact G_fail _ (QD_err _)
+  | succ k ih =>
+    unfold openSerial
+    refine G_bindG (S := fun _ _ => True)
+      (G_modify (fun _ _ h => cut_opened _ h) (fun h hd => ⟨dead_opened _ hd, fun _ _ => trivial⟩)) (fun _ => ?_) (QD_err _)
+    refine G_catch (G_ping htr hstrict) (fun e => ?_) (fun _ _ _ hF => hF.elim)
+    refine G_bindG (S := fun _ _ => True)
+      (G_modify (fun _ _ h => cut_opened _ h) (fun h hd => ⟨dead_opened _ hd, fun _ _ => trivial⟩)) (fun _ => ?_) (QD_err _)
+    exact G_ite ih (G_fail _ (QD_err _))
+
+theorem G_openOp : G c (runOp .open_) NS := by
+  simp only [runOp]
+  refine G_getG (fun hf ht hc => by simp only [hc.cfgf, hc.cfgt]) (fun h0 e => ?_)
+  rw [e, htr]
+  exact G_bindE (G_openSerial htr hstrict _) (fun _ => LS_pure _ _) NS_err
+
+end opening
+
+/-- every operation whose success depends on an answer of the device -/
+theorem G_runOp {c : Cfg} (hstrict : c.tr = .serial → c.partialReads = false) (op : Op) (ht : talks c op) :
+    G c (runOp op) NS := by
+  cases op with
+  | open_ => exact G_openOp ht (hstrict ht)
+  | getProperty t i => exact G_getPropertyOp hstrict t i
+  | setProperty t v => exact G_simpleCmd hstrict _ _
+  | fillMemory a n p => exact G_simpleCmd hstrict _ _
+  | eraseRegion a n m => exact G_simpleCmd hstrict _ _
+  | eraseAll m => exact G_simpleCmd hstrict _ _
+  | execute a g s => exact G_simpleCmd hstrict _ _
+  | call a g => exact G_simpleCmd hstrict _ _
+  | eraseAllUnsecure => exact G_simpleCmd hstrict _ _
+  | configureMemory a m => exact G_simpleCmd hstrict _ _
+  | reliableUpdate a => exact G_simpleCmd hstrict _ _
+  | readMemory a n m f => exact G_readMemory hstrict a n m f ht
+  | writeMemory a d m => exact G_writeMemory hstrict a d m
+  | receiveSbFile d ce => exact G_receiveSbFile hstrict d ce
+  | loadImage d => exact G_loadImage hstrict ht.1 d ht.2
+  | flashReadOnce i n => exact G_flashReadOnce hstrict i n
+  | flashProgramOnce i d => exact G_flashProgramOnce hstrict i d
+  | efuseReadOnce i => exact G_efuseReadOnceOp hstrict i
+  | efuseProgramOnce i v ce => exact G_efuseProgramOnce hstrict i v ce
+  | flashReadResource a n o =>
+    simp only [runOp]
+    exact G_ite (G_fail _ NS_err) (G_dataInCmd hstrict _ _ _)
+  | kpEnroll => exact G_simpleCmd hstrict _ _
+  | kpSetIntrinsicKey t z => exact G_simpleCmd hstrict _ _
+  | kpWriteNonvolatile m => exact G_simpleCmd hstrict _ _
+  | kpReadNonvolatile m => exact G_simpleCmd hstrict _ _
+  | kpSetUserKey t d => exact G_dataOutCmd hstrict _ _ _
+  | kpWriteKeyStore d => exact G_dataOutCmd hstrict _ _ _
+  | kpReadKeyStore => exact G_dataInCmd hstrict _ _ _
+  | reset r => exact absurd ht id
+
+theorem observable_of_cut {c : Cfg} (xf xt : Except HErr Val × Host) (he : xt.1 = xf.1) (hc : Cut c xf.2 xt.2) :
+    observable xt = observable xf := by
+  unfold observable
+  rw [he, hc.status, hc.txRev]
+
 /-- serial link, strict reads (`device.read(n)` returns `n` bytes or times out), replay peer: every byte position -/
 theorem truncation_safe_serial (h : Host) (op : Op) (k : Nat) (cs : List (List Bytes))
     (htr : h.cfg.tr = .serial) (hstrict : h.cfg.partialReads = false) (hpeer : h.peer = .script cs)
     (ht : talks h.cfg op) :
     observable (runOp op (h.truncate k)) = observable (runOp op h) ∨
       ¬ succeeded (runOp op (h.truncate k)).1 (runOp op (h.truncate k)).2 := by
-  sorry
+  have hG := G_runOp (c := h.cfg) (fun _ => hstrict) op ht
+  rcases hG.2 h (h.truncate k) (cut_truncate h k cs htr hpeer) with ⟨e, hc'⟩ | hq
+  · exact Or.inl (observable_of_cut _ _ e hc')
+  · exact Or.inr hq
 
 /-- USB-HID: the stream is cut after any number of whole reports -/
 theorem truncation_safe_hid (h : Host) (op : Op) (k : Nat) (cs : List (List Bytes))
     (htr : h.cfg.tr = .hid) (hpeer : h.peer = .script cs) (ht : talks h.cfg op) :
     observable (runOp op (h.truncateReports k)) = observable (runOp op h) ∨
       ¬ succeeded (runOp op (h.truncateReports k)).1 (runOp op (h.truncateReports k)).2 := by
-  sorry
+  have hG := G_runOp (c := h.cfg) (fun hs => by rw [htr] at hs; cases hs) op ht
+  rcases hG.2 h (h.truncateReports k) (cut_truncateReports h k cs htr hpeer) with ⟨e, hc'⟩ | hq
+  · exact Or.inl (observable_of_cut _ _ e hc')
+  · exact Or.inr hq
 
 end SpsdkVerif.Mboot.Trunc
